@@ -859,6 +859,50 @@ func genWaiterBulk(r *rand.Rand, n int) string {
 	return fmt.Sprintf("mode=waiter toks=%s sleeps=%s", joinInts(toks), joinInts(sleeps))
 }
 
+// genWaiterRel: every token is placed relative to the instant the schedule is asked for it, nanoseconds to a millisecond ahead of
+// it or behind it (relSched): waits far shorter than any sleep of the driver can aim at, next to waits of tens and hundreds of
+// microseconds and tokens that are just due. A wait that is skipped, rounded down or cut short shows as an action before its token.
+func genWaiterRel(r *rand.Rand) string {
+	n := 8 + r.Intn(10)
+	var rel, sleeps []int64
+	for i := 0; i < n; i++ {
+		var d int64
+		switch r.Intn(7) {
+		case 0:
+			d = int64(1 + r.Intn(1000)) // under a microsecond
+		case 1:
+			d = int64(1000 + r.Intn(9000))
+		case 2, 3:
+			d = int64(10_000 + r.Intn(90_000)) // 10 .. 100 us
+		case 4:
+			d = int64(100_000 + r.Intn(900_000))
+		case 5:
+			d = int64(1_000_000 + r.Intn(4_000_000))
+		default:
+			d = -int64(r.Intn(200_000)) // just due
+		}
+		rel = append(rel, d)
+		sl := int64(0)
+		if r.Intn(5) == 0 {
+			sl = int64(1 + r.Intn(3))
+		}
+		sleeps = append(sleeps, sl)
+	}
+	return fmt.Sprintf("mode=waiter rel=%s sleeps=%s", joinInts(rel), joinInts(sleeps))
+}
+
+// genRace: a fresh, never Start()ed profile whose first tokens are taken by several instances at the same moment, many rounds
+func genRace(r *rand.Rand, rounds int) string {
+	prof := []string{
+		fmt.Sprintf("const:%d:100000", 1+r.Intn(3)),
+		fmt.Sprintf("line:%d:%d:60000", 1+r.Intn(2), 4+r.Intn(4)),
+		fmt.Sprintf("once:%d+const:2:60000", 1+r.Intn(3)),
+		fmt.Sprintf("step:1:%d:1:20000", 2+r.Intn(3)),
+		"const:0.5:100000",
+	}[r.Intn(5)]
+	return fmt.Sprintf("mode=race inst=%d rounds=%d per=%d prof=%s", []int{2, 3, 4, 8, 16}[r.Intn(5)], rounds, 1+r.Intn(2), prof)
+}
+
 var respPool = []int64{0, 0, 50, 300, 700, 1000, 1500, 2100, 3000, 4000}
 
 func genSeg(r *rand.Rand, small, big bool) string {
@@ -877,7 +921,8 @@ func genSeg(r *rand.Rand, small, big bool) string {
 	case k == 0:
 		return fmt.Sprintf("once:%d", 1+r.Intn(8))
 	case k == 1 && !small:
-		return fmt.Sprintf("line:%d:%d:%d", 1+r.Intn(6), 4+r.Intn(16), 1000+500*r.Intn(4))
+		// (durations that are not a whole number of seconds: the slope and the count depend on the fraction)
+		return fmt.Sprintf("line:%d:%d:%d", r.Intn(7), 4+r.Intn(16), 1000+100*r.Intn(21))
 	case k == 2 && !small:
 		return fmt.Sprintf("step:%d:%d:%d:%d", 2+r.Intn(4), 8+r.Intn(8), 3+r.Intn(4), 500+250*r.Intn(3))
 	case small:
@@ -982,7 +1027,33 @@ func gen(r *rand.Rand, tier string) []string {
 		// keeps up for 1.5 s and then falls behind, the third never does
 		"mode=engine inst=3 prof=const:5:4000 resp=3100,0,0,0,0,0,0,0,0,0,0,0,0,0,0,0,0,0,0,0,0,0,0,0 discard=1 perinst=1 rot=8",
 	}
+	quick = append(quick,
+		// round 6: the run against the CONFIGURED profile (the oracle is Spec.C01, not a copy of the schedule): lines whose duration
+		// is not a whole number of seconds, rising from 0 and falling to 0, one and several instances, instantaneous and slow gun
+		"mode=engine inst=2 prof=line:0:40:1500 resp=0 discard=1",
+		"mode=engine inst=3 prof=line:24:2:2700 resp=0,300 discard=0",
+		"mode=engine inst=1 prof=once:2+line:3:17:1300+const:4:1250 resp=0 discard=1",
+		// a dense profile through ONE instance with an instantaneous gun (tokens 50 us apart): the instance reaches the waiter
+		// within microseconds of the next token's time
+		"mode=engine inst=1 prof=const:20000:50 resp=0 discard=1",
+		// tokens placed ns .. ms ahead of the instant they are asked for
+		"mode=waiter rel=30000,5000,45000,100000,-20000,900000,20000,49000,1000,70000,300,12000,48000,2500000 sleeps=0,0,0,1,0,0,0,0,0,0,0,2,0,0",
+		// the instances of a pool take their first tokens from a fresh (lazily started) shared profile at the same moment
+		"mode=race inst=4 rounds=1500 per=1 prof=const:1:100000",
+		"mode=race inst=8 rounds=1000 per=2 prof=line:1:5:60000",
+		"mode=race inst=3 rounds=1500 per=2 prof=once:2+const:2:60000",
+	)
 	out = append(out, quick...)
+	nrel, nrace, raceRounds := 6, 2, 800
+	if thorough {
+		nrel, nrace, raceRounds = 150, 40, 1500
+	}
+	for i := 0; i < nrel; i++ {
+		out = append(out, genWaiterRel(r))
+	}
+	for i := 0; i < nrace; i++ {
+		out = append(out, genRace(r, raceRounds))
+	}
 	ne, nw, nn, nc := 10, 40, 16, 3
 	nfar, nlong, nbulk := 12, 3, 1
 	nfut := 6
@@ -1071,6 +1142,12 @@ func gen(r *rand.Rand, tier string) []string {
 func class(in, obs string) string {
 	m := drv.KV(in)
 	o := drv.KV(obs)
+	if m["mode"] == "race" {
+		if o["seq"] == "" {
+			return ""
+		}
+		return "race/inst=" + m["inst"] + "/" + strings.SplitN(m["prof"], ":", 2)[0]
+	}
 	if m["mode"] == "proc" {
 		if o["rc"] != "0" {
 			return ""
@@ -1121,6 +1198,9 @@ func class(in, obs string) string {
 	} else {
 		if m["unit"] == "us" {
 			c += "/near-us"
+		}
+		if m["rel"] != "" {
+			c += "/relative-tokens"
 		}
 		if n := strings.Count(m["toks"], ","); n > 100 {
 			c += "/bulk"
@@ -1196,6 +1276,6 @@ func main() {
 			"0..4 s (slower than the inter-request interval and than 2 s), discard_overflow on and off, some runs cancelled, instances started at once or one after the other (late starters); (b) the bare coreutil.Waiter on scripted schedules: " +
 			"tokens seconds in the past / up to 0.4 s in the future relative to time.Now(), real sleeps between calls, lateness far from, a few ms and a few hundred µs around " +
 			"the 2 s threshold, minutes / days / up to 250 years late (also at the values where a narrower integer wraps), timer sleeps of more than a second, hundreds of tokens per case, cancellation during the timer sleep, a second new Waiter after a cancelled one, tokens FAR in the future (2^15..2^32 us / ms / s and up to 250 years ahead) in runs that are cancelled after 0.3..0.6 s; (c) the pandora binary with yaml / json / toml / stdin configs (1..3 pools with equal or different settings, upper-case key, yaml merge key, 1..4 instances per pool, rps-per-instance) that omit / set discard_overflow against a slow in-process HTTP " +
-			"target that counts the requests it receives (a process that rejects the driver's valid config because of the discard_overflow key is a failure). Engine runs also with instances that see DIFFERENT response-time histories (rot=) and with dense profiles (hundreds of tokens discarded in one go). Every decision is judged against the measured [pick-up, action] interval. non-trivial = at least one token drawn (proc: the process ran)",
+			"target that counts the requests it receives (a process that rejects the driver's valid config because of the discard_overflow key is a failure). Engine runs also with instances that see DIFFERENT response-time histories (rot=) and with dense profiles (hundreds of tokens discarded in one go). (d) round 6: tokens placed ns..ms relative to the instant the schedule is asked (rel=), fresh lazily started profiles whose first tokens are taken by 2..16 waiters at the same moment (mode=race, hundreds of rounds per case), and every engine run judged against the CONFIGURED profile (Spec.C01 as oracle: the m-th action never before the profile has scheduled m operations; line durations with fractions of a second). Every decision is judged against the measured [pick-up, action] interval. non-trivial = at least one token drawn (proc: the process ran)",
 	})
 }
